@@ -75,6 +75,9 @@ type Exec struct {
 	pools     map[*Object]Value
 	tainted   bool
 	task      int                       // 0 = main goroutine, k>0 = k-th spawned task of the current fork/join region
+	hbSeg     *hbSegment                // happens-before analysis: segment being recorded (nil outside analysed threads)
+	hbThreads map[int][]*hbSegment      // per analysis thread: its segments in program order
+	hbThread  int
 	taskW     []map[jkey]bool           // per task: cells written (non-atomic)
 	taskR     []map[jkey]bool           // per task: cells read (non-atomic)
 	atomicOp  bool
@@ -107,6 +110,9 @@ func (x *Exec) write(o *Object, i int, v Value) {
 	if x.task > 0 && !x.atomicOp && x.e.RaceCheck {
 		x.taskW[x.task-1][jkey{o, i}] = true
 	}
+	if x.hbSeg != nil && !x.atomicOp {
+		x.hbSeg.w[jkey{o, i}] = true
+	}
 }
 
 func (x *Exec) read(o *Object, i int) Value {
@@ -119,6 +125,9 @@ func (x *Exec) read(o *Object, i int) Value {
 	}
 	if x.task > 0 && !x.atomicOp && x.e.RaceCheck {
 		x.taskR[x.task-1][jkey{o, i}] = true
+	}
+	if x.hbSeg != nil && !x.atomicOp {
+		x.hbSeg.r[jkey{o, i}] = true
 	}
 	return v
 }
@@ -597,7 +606,8 @@ func (x *Exec) callStatic(fn *ssa.Function, args []Value) []Value {
 		}
 		return out
 	}
-	if r, ok := x.e.Redirect[name]; ok {
+	if r, ok := x.e.Redirect[name]; ok && !(x.cur != nil && x.cur.fn != nil && x.cur.fn.String() == r) {
+		// (a stub may call the function it replaces: calls made directly from the stub are not redirected)
 		i := strings.LastIndex(r, ".")
 		pkg := x.e.P.Pkgs[r[:i]]
 		if pkg == nil || pkg.Func(r[i+1:]) == nil {
